@@ -183,58 +183,60 @@ def check_unbalanced_dof(run, E):
 # =====================================================================================================
 def tier_b(run, thorough):
     import sympy as sp
-    from vf.symrun.core import symarray, patched_np, identical, OVERRIDES_USED, witness
+    from vf.symrun.core import symarray, patched_np, identical, OVERRIDES_USED, witness, guard
     import rsatoolbox.data.noise as noise
     shapes = [(2, 2), (3, 2), (4, 3)] if thorough else [(2, 2), (3, 2)]
     n_eval = 0
     distinct = set()
     fails = []
     for (n, pch) in shapes:
-        X = symarray('x', (n, pch))
-        dof = sp.Symbol('dof', positive=True)
-        with patched_np(['rsatoolbox.data.noise']):
-            full = noise.cov_from_residuals(X.copy(), dof=dof, method='full')
-            diag = noise.cov_from_residuals(X.copy(), dof=dof, method='diag')
-            full_nat = noise.cov_from_residuals(X.copy(), method='full')
-        Xc = X - np.mean(X, axis=0, keepdims=True)
-        spec_full = np.dot(Xc.T, Xc) / dof
-        spec_nat = np.dot(Xc.T, Xc) / sp.Integer(n - 1)
-        for name, got, want in (('full', full, spec_full), ('diag', diag, np.diag(np.diag(spec_full))),
-                                ('full-natural-dof', full_nat, spec_nat)):
-            ok, idx, diff = identical(got, want)
-            n_eval += 1
-            distinct.add((name, n, pch))
-            nm = f'C14/_estimate_covariance/B/{name}[{n}x{pch}]'
-            run.obligation(nm, 'proved' if ok else 'refuted', 'sympy-normal-form', 0.0,
-                           detail=f'{name} == Xc^T Xc / dof on symbolic {n}x{pch} residuals' if ok else f'differs at {idx}: {diff}')
-            if not ok:
-                fails.append((nm, name, dict(shape=[n, pch], index=str(idx), difference=str(diff))))
-        # symmetry of every estimator output that is symbolic
-        ok, idx, diff = identical(full, full.T)
-        run.obligation(f'C14/_covariance_full/B/symmetric[{n}x{pch}]', 'proved' if ok else 'refuted', 'sympy-normal-form')
+        with guard(run, f'C14/B/symbolic-execution[{n}x{pch}]'):
+            X = symarray('x', (n, pch))
+            dof = sp.Symbol('dof', positive=True)
+            with patched_np(['rsatoolbox.data.noise']):
+                full = noise.cov_from_residuals(X.copy(), dof=dof, method='full')
+                diag = noise.cov_from_residuals(X.copy(), dof=dof, method='diag')
+                full_nat = noise.cov_from_residuals(X.copy(), method='full')
+            Xc = X - np.mean(X, axis=0, keepdims=True)
+            spec_full = np.dot(Xc.T, Xc) / dof
+            spec_nat = np.dot(Xc.T, Xc) / sp.Integer(n - 1)
+            for name, got, want in (('full', full, spec_full), ('diag', diag, np.diag(np.diag(spec_full))),
+                                    ('full-natural-dof', full_nat, spec_nat)):
+                ok, idx, diff = identical(got, want)
+                n_eval += 1
+                distinct.add((name, n, pch))
+                nm = f'C14/_estimate_covariance/B/{name}[{n}x{pch}]'
+                run.obligation(nm, 'proved' if ok else 'refuted', 'sympy-normal-form', 0.0,
+                               detail=f'{name} == Xc^T Xc / dof on symbolic {n}x{pch} residuals' if ok else f'differs at {idx}: {diff}')
+                if not ok:
+                    fails.append((nm, name, dict(shape=[n, pch], index=str(idx), difference=str(diff))))
+            # symmetry of every estimator output that is symbolic
+            ok, idx, diff = identical(full, full.T)
+            run.obligation(f'C14/_covariance_full/B/symmetric[{n}x{pch}]', 'proved' if ok else 'refuted', 'sympy-normal-form')
     # measurement-based vs unbalanced estimator on balanced designs (value identity given equal dof)
     from rsatoolbox.data import Dataset
     designs = [(2, 2, 2), (2, 3, 2), (3, 2, 2)] if thorough else [(2, 2, 2), (2, 3, 2)]
     for (C, R, P) in designs:
-        X = symarray('m', (C * R, P))
-        labels = np.repeat(np.arange(C), R)
-        ds = Dataset.__new__(Dataset)
-        ds.measurements = X
-        ds.n_obs, ds.n_channel = X.shape
-        ds.obs_descriptors = {'cond': labels}
-        ds.descriptors, ds.channel_descriptors = {}, {'index': np.arange(P)}
-        dof = sp.Symbol('dof', positive=True)
-        with patched_np(['rsatoolbox.data.noise', 'rsatoolbox.data.computations', 'rsatoolbox.data.dataset']):
-            a = noise.cov_from_measurements(ds, 'cond', dof=dof, method='full')
-            b = noise.cov_from_unbalanced(ds, 'cond', dof=dof, method='full')
-        ok, idx, diff = identical(a, b)
-        n_eval += 1
-        distinct.add(('agree', C, R, P))
-        nm = f'C14/cov_from_measurements/B/agrees-with-unbalanced-given-dof[{C}x{R}x{P}]'
-        run.obligation(nm, 'proved' if ok else 'refuted', 'sympy-normal-form', 0.0,
-                       detail='measurement-based == unbalanced (method full, same dof) on a symbolic balanced design')
-        if not ok:
-            fails.append((nm, 'agree', dict(design=[C, R, P], index=str(idx), difference=str(diff))))
+        with guard(run, f'C14/B/symbolic-execution[{C}x{R}x{P}]'):
+            X = symarray('m', (C * R, P))
+            labels = np.repeat(np.arange(C), R)
+            ds = Dataset.__new__(Dataset)
+            ds.measurements = X
+            ds.n_obs, ds.n_channel = X.shape
+            ds.obs_descriptors = {'cond': labels}
+            ds.descriptors, ds.channel_descriptors = {}, {'index': np.arange(P)}
+            dof = sp.Symbol('dof', positive=True)
+            with patched_np(['rsatoolbox.data.noise', 'rsatoolbox.data.computations', 'rsatoolbox.data.dataset']):
+                a = noise.cov_from_measurements(ds, 'cond', dof=dof, method='full')
+                b = noise.cov_from_unbalanced(ds, 'cond', dof=dof, method='full')
+            ok, idx, diff = identical(a, b)
+            n_eval += 1
+            distinct.add(('agree', C, R, P))
+            nm = f'C14/cov_from_measurements/B/agrees-with-unbalanced-given-dof[{C}x{R}x{P}]'
+            run.obligation(nm, 'proved' if ok else 'refuted', 'sympy-normal-form', 0.0,
+                           detail='measurement-based == unbalanced (method full, same dof) on a symbolic balanced design')
+            if not ok:
+                fails.append((nm, 'agree', dict(design=[C, R, P], index=str(idx), difference=str(diff))))
     for o in sorted(OVERRIDES_USED):
         run.trust('engine B proxy override: ' + o)
     run.bounded_check('C14/B/formulas', 'B', 'all real residual values; shapes %s; balanced designs %s' % (shapes, designs),
